@@ -31,10 +31,10 @@ Proof.
 Qed.
 
 Section OkMain.
-Variable caps : list Z.
+Variable caps : Z -> bool.
 Variable tb : captab.
-Hypothesis Hslot : forall k, ct_slot tb k = true -> zmem k caps = true.
-Hypothesis Hname : forall s g, ct_name tb s = Some g -> zmem g caps = true.
+Hypothesis Hslot : forall k, ct_slot tb k = true -> caps k = true.
+Hypothesis Hname : forall s g, ct_name tb s = Some g -> caps g = true.
 
 Variable is_word_char : Z -> bool.
 Variable to_lower : Z -> Z.
@@ -63,7 +63,7 @@ Local Notation class_node := (class_node to_lower simple_fold cat_in).
 Definition bunit (o : Z) (r : pr (bres * list Z)) : Prop :=
   match r with POk (BNode x, _) => unit_ok o x | _ => True end.
 
-Lemma ref_unit o g : zmem g caps = true -> unit_ok o (mk_node_mn T_Ref o g 0).
+Lemma ref_unit o g : caps g = true -> unit_ok o (mk_node_mn T_Ref o g 0).
 Proof.
   intros H. split.
   - apply wf_iff. split; [|reflexivity]. unfold knd, gq. cbn. rewrite H. reflexivity.
@@ -358,12 +358,14 @@ Proof.
 Qed.
 
 (* addGroup: the closed group becomes the unit *)
-Lemma add_group_o st st' : mbody st -> oinv st -> add_group st = POk st' ->
+Lemma add_group_o st st' : mbody st -> oinv st ->
+  (n_t (ms_group st) = T_ExprCond -> n_kids (ms_group st) <> []) ->
+  add_group st = POk st' ->
   ms_stack st' = ms_stack st /\ ms_os st' = ms_os st /\ ms_o st' = ms_o st /\
   exists g', ms_unit st' = Some g' /\ n_t g' = n_t (ms_group st) /\ pre g' /\
              (forall d', (is_look (n_t g') = false -> d' = useRTL (ms_o st)) -> dirb d' g' = true).
 Proof.
-  intros [Bg Ba Bc Bs Bu] [[Lg [La Lc]] Ls Lu] E. unfold Parser.add_group in E.
+  intros [Bg Ba Bc Bs Bu] [[Lg [La Lc]] Ls Lu] HK E. unfold Parser.add_group in E.
   pose proof (CRG _ Bc) as Gc.
   destruct (reverse_left_pre caps (ms_concat st) (proj1 Lc) (proj2 Bc)) as [Pc Dc]. specialize (Dc _ (proj2 Lc)).
   set (d := useRTL (ms_o st)) in *.
@@ -381,7 +383,9 @@ Proof.
     destruct (cond_t_cases _ C) as [Et | Et]; rewrite Et in F1; subst t.
     + split.
       * split; [|exact W']. unfold knd. cbn. unfold zlen in EB.
-        destruct kids as [|k1 [|k2 [|k3 [|k4 l]]]]; try reflexivity; try congruence. cbn [length] in EB. lia.
+        assert (L2 : (2 <= length kids)%nat).
+        { rewrite F4, app_length. cbn [length]. specialize (HK Et). destruct (n_kids (ms_group st)); [congruence | cbn [length]; lia]. }
+        destruct kids as [|k1 [|k2 [|k3 [|k4 l]]]]; try reflexivity; cbn [length] in EB, L2; lia.
       * intros d' Hd'. rewrite (Hd' eq_refl). rewrite dirb_econd. exact K'.
     + split.
       * split; [|exact W']. unfold knd. cbn. unfold zlen in EB.
@@ -423,7 +427,7 @@ Definition gopen_ok (v : gvars) (r : pr (option rnode * gvars * list Z)) : Prop 
   | _ => True
   end.
 
-Definition num_ok (k : Z) : Prop := k = -1 \/ zmem k caps = true.
+Definition num_ok (k : Z) : Prop := k = -1 \/ caps k = true.
 
 Lemma capture_gnode o m n : num_ok m -> num_ok n -> (negb (m =? -1) || negb (n =? -1)) = true ->
   gnode (mk_node_mn T_Capture o m n).
@@ -482,7 +486,7 @@ Lemma group_cond_o v p1 : gopen_ok v (group_cond tb v p1).
 Proof.
   unfold Parser.group_cond.
   match goal with |- gopen_ok _ (pbind ?a _) =>
-    assert (A : match a with POk (Some (g, _)) => zmem g caps = true | _ => True end) end.
+    assert (A : match a with POk (Some (g, _)) => caps g = true | _ => True end) end.
   { destruct (tl p1) as [|c p2']; [exact I|].
     destruct (is_digit c).
     - destruct (decimal (c :: p2')) as [[n q]|e q| | |]; cbn [pbind]; auto.
@@ -519,7 +523,7 @@ Proof. intros H. unfold gopen_ok. rewrite H. auto. Qed.
 
 Lemma group_open_o mco gt v p :
   ((is_nil p || negb (hd_is p 63) || nth_is 1 p 41) = true -> (useN (gv_o v) || gv_ign v) = false ->
-   zmem (gv_autocap v) caps = true) ->
+   caps (gv_autocap v) = true) ->
   gopen_ok v (group_open tb mco gt v p).
 Proof.
   intros Hac. unfold Parser.group_open.
@@ -620,7 +624,7 @@ Qed.
 (* ---------------------------------------------------------------- "(" and ")" *)
 Lemma round_open_o mco st1 p3 st' nxt : minv st1 -> oinv st1 -> ms_unit st1 = None ->
   ((is_nil p3 || negb (hd_is p3 63) || nth_is 1 p3 41) = true -> (useN (ms_o st1) || ms_ign st1) = false ->
-   zmem (ms_autocap st1) caps = true) ->
+   caps (ms_autocap st1) = true) ->
   round_open tb mco st1 p3 = POk (st', nxt) -> oinv st'.
 Proof.
   intros [B D] Ho Hu Hac E. unfold Parser.round_open in E.
@@ -644,13 +648,15 @@ Proof.
   - constructor; cbn; rewrite GO; [exact L | exact S | rewrite Hu; exact I].
 Qed.
 
-Lemma round_close_o st1 p3 st' nxt : minv st1 -> oinv st1 -> round_close st1 p3 = POk (st', nxt) -> oinv st'.
+Lemma round_close_o st1 p3 st' nxt : minv st1 -> oinv st1 ->
+  (n_t (ms_group st1) = T_ExprCond -> n_kids (ms_group st1) <> []) ->
+  round_close st1 p3 = POk (st', nxt) -> oinv st'.
 Proof.
-  intros [B D] Ho E. unfold Parser.round_close in E. destruct (ms_stack st1) as [|[[g a] c] stk] eqn:Es; [discriminate|].
+  intros [B D] Ho HK E. unfold Parser.round_close in E. destruct (ms_stack st1) as [|[[g a] c] stk] eqn:Es; [discriminate|].
   destruct (add_group st1) as [st2|e q| | |] eqn:E2; cbn [pbind] in E; try discriminate.
   pose proof (add_group_ok is_word_char to_lower simple_fold participates cat_in cat_name st1 B) as AG. rewrite E2 in AG.
   destruct AG as [B2 [_ _]].
-  destruct (add_group_o st1 st2 B Ho E2) as [S2 [O2 [OO2 [g' [U2 [T2 [P2 D2]]]]]]].
+  destruct (add_group_o st1 st2 B Ho HK E2) as [S2 [O2 [OO2 [g' [U2 [T2 [P2 D2]]]]]]].
   destruct Ho as [L S U]. rewrite Es in S.
   destruct (ms_os st1) as [|o1 os1] eqn:Eos; [cbn in S; contradiction|]. cbn [stack_inv] in S. destruct S as [LK [[Lg [La Lc]] S']].
   (* popGroup *)
@@ -694,6 +700,118 @@ Proof.
 Qed.
 
 
+(* ---------------------------------------------------------------- the condition of an expression conditional *)
+(* scanGroupOpen sets ignoreNextParen when it opens "(?(" with an expression condition and leaves the cursor on the
+   "(" of the condition; the next round opens that group, popGroup files it as the first child.  So a conditional
+   never gets its branches before its condition: NtExprCond has 2..3 children when it is closed. *)
+Definition einv (st : mst) : Prop :=
+  n_t (ms_group st) = T_ExprCond -> n_kids (ms_group st) = [] -> ms_ign st = true.
+Definition ign_ok (st : mst) (p : list Z) : Prop :=
+  ms_ign st = true -> hd_is p 40 = true /\ starts_qhash (tl p) = false.
+
+Lemma einv_keep st st' : einv st -> n_t (ms_group st') = n_t (ms_group st) ->
+  (n_kids (ms_group st') = [] -> n_kids (ms_group st) = []) -> ms_ign st' = ms_ign st -> einv st'.
+Proof. unfold einv. intros H T K I. rewrite T, I. auto. Qed.
+
+Lemma blank_paren x p : hd_is p 40 = true -> starts_qhash (tl p) = false -> blank x BNorm p = POk p.
+Proof.
+  destruct p as [|c t]; [discriminate|]. cbn [hd_is tl]. intros H Q. assert (c = 40) by lia. subst c.
+  cbn [blank]. change (is_space 40) with false. rewrite andb_false_r. cbn [Z.eqb Pos.eqb]. rewrite andb_false_r, Q. reflexivity.
+Qed.
+
+Lemma take_run_paren o t : take_run o (40 :: t) = ([], 40 :: t).
+Proof.
+  cbn [take_run]. assert (S : is_stopper o 40 = true) by (unfold is_stopper; destruct (useX o); reflexivity).
+  rewrite S. reflexivity.
+Qed.
+
+Lemma add_concatenate_grp st st' : add_concatenate st = POk st' -> ms_group st' = ms_group st /\ ms_ign st' = ms_ign st.
+Proof.
+  unfold Parser.add_concatenate. destruct (ms_unit st) as [u|]; [|discriminate].
+  destruct (add_child (ms_concat st) u); cbn [of_res pbind]; try discriminate. intros H. inversion H; split; reflexivity.
+Qed.
+
+Lemma add_concatenate3_grp st lazy mn mx st' : add_concatenate3 st lazy mn mx = POk st' -> ms_group st' = ms_group st /\ ms_ign st' = ms_ign st.
+Proof.
+  unfold Parser.add_concatenate3. destruct (ms_unit st) as [u|]; [|discriminate].
+  destruct (make_quantifier cat_in u lazy mn mx) as [qq| | |]; cbn [of_res pbind]; try discriminate.
+  destruct (add_child (ms_concat st) qq); cbn [of_res pbind]; try discriminate. intros H. inversion H; split; reflexivity.
+Qed.
+
+Lemma scan_quantifier_grp st p st' q : scan_quantifier st p = POk (st', q) -> ms_group st' = ms_group st /\ ms_ign st' = ms_ign st.
+Proof.
+  unfold Parser.scan_quantifier. destruct p as [|ch p1]; [discriminate|].
+  destruct (ms_unit st) as [u|]; [|intros H; inversion H; split; reflexivity].
+  match goal with |- pbind ?a _ = _ -> _ => destruct a as [[[[mn mx] q0]|]|e q0| | |] end; cbn [pbind]; try discriminate.
+  - destruct (scan_blank_full (ms_o st) q0) as [q1|e q1| | |]; cbn [pbind]; try discriminate.
+    destruct (if hd_is q1 63 then (true, tl q1) else (false, q1)) as [lazy q2].
+    destruct (mx <? mn); [discriminate|].
+    destruct (add_concatenate3 st lazy mn mx) as [st1|e q3| | |] eqn:E3; cbn [pbind]; try discriminate.
+    intros H. inversion H; subst. eapply add_concatenate3_grp. exact E3.
+  - destruct (add_concatenate st) as [st1|e q3| | |] eqn:E1; cbn [pbind]; try discriminate.
+    intros H. inversion H; subst. eapply add_concatenate_grp. exact E1.
+Qed.
+
+Lemma after_unit_grp st p st' q wq : after_unit st p = POk (st', q, wq) -> ms_group st' = ms_group st /\ ms_ign st' = ms_ign st.
+Proof.
+  unfold Parser.after_unit. destruct (scan_blank_full (ms_o st) p) as [p1|e p1| | |]; cbn [pbind]; try discriminate.
+  destruct (is_nil p1 || negb (is_true_quantifier p1)).
+  - destruct (add_concatenate st) as [st1|e q3| | |] eqn:E1; cbn [pbind]; try discriminate.
+    intros H. inversion H; subst. eapply add_concatenate_grp. exact E1.
+  - destruct (scan_quantifier st p1) as [[st1 q1]|e q3| | |] eqn:E1; cbn [pbind]; try discriminate.
+    intros H. inversion H; subst. eapply scan_quantifier_grp. exact E1.
+Qed.
+
+(* scanGroupOpen: ignoreNextParen is set only in front of the "(" of an expression condition *)
+Lemma group_open_x mco gt v p g v' q : Parser.group_open is_word_char tb mco gt v p = POk (g, v', q) ->
+  (gv_ign v' = true -> hd_is q 40 = true /\ starts_qhash (tl q) = false) /\
+  match g with Some gn => n_t gn = T_ExprCond -> gv_ign v' = true | None => gt <> T_ExprCond end.
+Proof.
+  unfold Parser.group_open. intros E.
+  destruct (is_nil p || negb (hd_is p 63) || nth_is 1 p 41) eqn:E0.
+  { destruct (useN (gv_o v) || gv_ign v) eqn:EN; injection E as <- <- <-; cbn [gv_ign]; (split; [|discriminate]).
+    - discriminate.
+    - intros H. rewrite H, orb_true_r in EN. discriminate. }
+  destruct (tl p) as [|ch p2] eqn:E1; [discriminate|].
+  assert (N41 : (ch =? 41) = false).
+  { destruct p as [|c0 p']; [discriminate|]. cbn [tl] in E1. subst p'. cbn in E0. destruct (ch =? 41); [rewrite orb_true_r in E0; discriminate | reflexivity]. }
+  destruct (ch =? 58); [injection E as <- <- <-; cbn; split; discriminate|].
+  destruct (ch =? 61); [injection E as <- <- <-; cbn; split; discriminate|].
+  destruct (ch =? 33); [injection E as <- <- <-; cbn; split; discriminate|].
+  destruct (ch =? 62); [injection E as <- <- <-; cbn; split; discriminate|].
+  destruct ((ch =? 39) || (ch =? 60)).
+  { destruct p2 as [|c2 p3]; [discriminate|].
+    destruct ((c2 =? 61) || (c2 =? 33)).
+    - destruct ((if ch =? 39 then 39 else 62) =? 39); [discriminate|]. injection E as <- <- <-. cbn. split; [discriminate | destruct (c2 =? 61); discriminate].
+    - unfold Parser.group_name in E. cbn [gv_o gv_ign gv_autocap] in E.
+      destruct (useE (gv_o v)); [discriminate|].
+      match type of E with pbind ?A _ = _ => destruct A as [[[capnum proceed] q0]|e q0| | |] end; cbn [pbind] in E; try discriminate.
+      match type of E with pbind ?A _ = _ => destruct A as [[uncapnum q3]|e q3| | |] end; cbn [pbind] in E; try discriminate.
+      match type of E with (if ?c then _ else _) = _ => destruct c end; [|discriminate]. injection E as <- <- <-. cbn. split; discriminate. }
+  destruct (ch =? 40) eqn:C40.
+  { assert (ch = 40) by lia. subst ch. unfold Parser.group_cond in E. cbn [gv_o gv_ign gv_autocap tl] in E.
+    match type of E with pbind ?A _ = _ => destruct A as [[[gn q1]|]|e q1| | |] end; cbn [pbind] in E; try discriminate.
+    - injection E as <- <- <-. cbn. split; discriminate.
+    - assert (Q : starts_qhash p2 = false).
+      { destruct (starts_qhash p2) eqn:Q; [|reflexivity]. exfalso.
+        unfold starts_qhash in Q. apply andb_prop in Q. destruct Q as [Q1 Q2].
+        destruct p2 as [|c0 [|c1 p4]]; try discriminate. cbn [hd_is nth_is skipn] in Q1, Q2.
+        assert (c0 = 63) by lia. assert (c1 = 35) by lia. subst c0 c1. cbn in E. discriminate. }
+      repeat match type of E with (if ?c then _ else _) = _ => destruct c end; try discriminate; injection E as <- <- <-; cbn [gv_ign hd_is tl mk_node n_t Z.eqb Pos.eqb];
+        (split; [intros _; split; [reflexivity | exact Q] | reflexivity]). }
+  destruct ((ch =? 80) && useRE2 (gv_o v)).
+  { unfold Parser.group_pyname in E. cbn [gv_o gv_ign gv_autocap] in E.
+    destruct (negb (longer p2 2)); [discriminate|]. destruct (negb (hd_is p2 60)); [discriminate|].
+    destruct (is_word_char (nth 1 p2 0)); [|discriminate]. destruct (useE (gv_o v)); [discriminate|].
+    destruct (scan_word is_word_char (tl p2)) as [nm q0]. destruct (hd_is_not q0 62); [discriminate|].
+    match type of E with (if ?c then _ else _) = _ => destruct c end; [|discriminate]. injection E as <- <- <-. cbn. split; discriminate. }
+  destruct (gt =? T_ExprCond) eqn:GT.
+  - destruct (ch =? 41); [discriminate|]. destruct (ch =? 58); [|discriminate]. injection E as <- <- <-. cbn. split; discriminate.
+  - destruct (scan_options_text (gv_o v) (ch :: p2)) as [o2 q0]. destruct q0 as [|c q1]; [discriminate|].
+    destruct (c =? 41); [injection E as <- <- <-; cbn; split; [discriminate | lia]|].
+    destruct (c =? 58); [|discriminate]. injection E as <- <- <-. cbn. split; discriminate.
+Qed.
+
 (* ---------------------------------------------------------------- one round *)
 Lemma add_run_fields st run isq st1 : add_run st run isq = POk st1 ->
   ms_o st1 = ms_o st /\ ms_ign st1 = ms_ign st /\ ms_autocap st1 = ms_autocap st /\ ms_os st1 = ms_os st /\ ms_stack st1 = ms_stack st /\
@@ -709,14 +827,14 @@ Qed.
 
 Local Notation ARO := (add_run_ok is_word_char to_lower simple_fold participates cat_in cat_name).
 
-Lemma scan_round_o mco st p wasq st' nxt : minv st -> oinv st -> ms_unit st = None ->
+Lemma scan_round_o mco st p wasq st' nxt : minv st -> oinv st -> ms_unit st = None -> einv st -> ign_ok st p ->
   (forall p0 run p1 p3, scan_blank_full (ms_o st) p = POk p0 -> take_run (ms_o st) p0 = (run, p1) ->
        scan_blank_full (ms_o st) p1 = POk (40 :: p3) ->
        (is_nil p3 || negb (hd_is p3 63) || nth_is 1 p3 41) = true -> (useN (ms_o st) || ms_ign st) = false ->
-       zmem (ms_autocap st) caps = true) ->
+       caps (ms_autocap st) = true) ->
   scan_round tb mco st p wasq = POk (st', nxt) -> oinv st'.
 Proof.
-  intros Iv Ho Hu Hac E. unfold Parser.scan_round in E.
+  intros Iv Ho Hu He Hi Hac E. unfold Parser.scan_round in E.
   destruct (scan_blank_full (ms_o st) p) as [p0|e q| | |] eqn:E0; cbn [pbind] in E; try discriminate.
   destruct (take_run (ms_o st) p0) as [run p1] eqn:Er.
   destruct (scan_blank_full (ms_o st) p1) as [p2|e q| | |] eqn:E1; cbn [pbind] in E; try discriminate.
@@ -746,7 +864,14 @@ Proof.
   { destruct (add_alternate st1) as [st2|e q| | |] eqn:E2; cbn [pbind] in E; try discriminate.
     inversion E; subst. eapply add_alternate_o; [exact A1 | exact O1 | exact E2]. }
   destruct (ch =? 41) eqn:C4.
-  { eapply round_close_o; [exact I1 | exact O1 | exact E]. }
+  { eapply round_close_o; [exact I1 | exact O1 | | exact E].
+    destruct (add_run_fields _ _ _ _ Ea) as [_ [G2 [_ [_ [_ G6]]]]]. rewrite G6. intros HT HK.
+    assert (IG : ms_ign st = true) by (apply He; assumption).
+    destruct (Hi IG) as [H40 Q]. unfold scan_blank_full in E0, E1.
+    rewrite (blank_paren _ p H40 Q) in E0. inversion E0; subst p0.
+    destruct p as [|c t]; [discriminate|]. cbn [hd_is] in H40. assert (c = 40) by lia. subst c.
+    rewrite take_run_paren in Er. inversion Er; subst.
+    rewrite (blank_paren _ (40 :: t) eq_refl Q) in E1. inversion E1; subst. discriminate. }
   destruct (ch =? 92) eqn:C5.
   { pose proof (scan_backslash_full_badv is_word_char to_lower simple_fold participates cat_in cat_name false tb (ms_o st) p3) as SB.
     pose proof (scan_backslash_full_unit false (ms_o st) p3) as SU.
@@ -763,15 +888,310 @@ Proof.
   inversion E; subst. eapply after_unit_o; [exact A1 | exact O1 | exact EA].
 Qed.
 
-(* the end of scanRegex: the root group is closed and becomes the tree *)
-Lemma scan_end_o st st' u : mbody st -> oinv st -> add_group st = POk st' -> ms_unit st' = Some u ->
-  n_t (ms_group st) = T_Capture -> wf u.
+(* the condition discipline through one round *)
+Lemma ign_round st p p0 run p1 p2 : ign_ok st p -> ms_ign st = true ->
+  scan_blank_full (ms_o st) p = POk p0 -> take_run (ms_o st) p0 = (run, p1) -> scan_blank_full (ms_o st) p1 = POk p2 ->
+  exists t, p2 = 40 :: t /\ run = [].
 Proof.
-  intros B Ho E Eu Ht. destruct (add_group_o st st' B Ho E) as [_ [_ [_ [g' [U' [T' [P' _]]]]]]].
-  rewrite Eu in U'. inversion U'; subst g'. apply pre_wf; [|exact P']. rewrite T', Ht. discriminate.
+  intros Hi IG E0 Er E1. destruct (Hi IG) as [H40 Q]. unfold scan_blank_full in E0, E1.
+  rewrite (blank_paren _ p H40 Q) in E0. inversion E0; subst p0.
+  destruct p as [|c t]; [discriminate|]. cbn [hd_is] in H40. assert (c = 40) by lia. subst c.
+  rewrite take_run_paren in Er. inversion Er; subst.
+  rewrite (blank_paren _ (40 :: t) eq_refl Q) in E1. inversion E1; subst. exists t. auto.
 Qed.
 
-Lemma oinv_init o : zmem 0 caps = true ->
+Lemma unit_then_x st1 x q st' nxt : einv st1 -> ms_ign st1 = false ->
+  (pdo r <- after_unit (set_unit st1 (Some x)) q ; let '(st', q', wq) := r in POk (st', Some (q', wq))) = POk (st', nxt) ->
+  einv st' /\ match nxt with Some (q0, _) => ign_ok st' q0 | None => ms_ign st' = false end.
+Proof.
+  intros He Hi E.
+  destruct (after_unit (set_unit st1 (Some x)) q) as [[[st2 q2] wq]|e q0| | |] eqn:EA; cbn [pbind] in E; try discriminate.
+  inversion E; subst. destruct (after_unit_grp _ _ _ _ _ EA) as [G1 G2]. cbn [set_unit ms_group ms_ign] in G1, G2.
+  split; [eapply einv_keep; [exact He | rewrite G1; reflexivity | rewrite G1; auto | exact G2]|].
+  intros H. congruence.
+Qed.
+
+Lemma round_open_x mco st1 p3 st' nxt : einv st1 ->
+  round_open tb mco st1 p3 = POk (st', nxt) ->
+  einv st' /\ match nxt with Some (q0, _) => ign_ok st' q0 | None => ms_ign st' = false end.
+Proof.
+  intros He E. unfold Parser.round_open in E.
+  destruct (useRE2 (ms_o st1) && negb (ms_ign st1) && hd_is p3 63 && nth_is 1 p3 80 && nth_is 2 p3 61) eqn:PY.
+  { destruct (python_backref is_word_char tb (ms_o st1) (skipn 3 p3)) as [[x q]|e q| | |]; cbn [pbind] in E; try discriminate.
+    eapply unit_then_x; [exact He | | exact E].
+    destruct (ms_ign st1); [cbn [negb] in PY; rewrite andb_false_r in PY; cbn [andb] in PY; discriminate | reflexivity]. }
+  destruct (Parser.group_open is_word_char tb mco (n_t (ms_group st1)) (mkGV (ms_o st1) (ms_ign st1) (ms_autocap st1)) p3) as [[[g v] q]|e q| | |] eqn:EG;
+    cbn [pbind] in E; try discriminate.
+  destruct (group_open_x _ _ _ _ _ _ _ EG) as [X1 X2].
+  destruct g as [gn|]; inversion E; subst; cbn [start_group push_group ms_group ms_ign].
+  - split; [intros HT _; exact (X2 HT) | exact X1].
+  - split; [intros HT _; contradiction | exact X1].
+Qed.
+
+Lemma round_close_x st1 p3 st' nxt : ms_ign st1 = false ->
+  round_close st1 p3 = POk (st', nxt) ->
+  einv st' /\ match nxt with Some (q0, _) => ign_ok st' q0 | None => ms_ign st' = false end.
+Proof.
+  intros Hi E. unfold Parser.round_close in E. destruct (ms_stack st1) as [|[[g a] c] stk] eqn:Es; [discriminate|].
+  destruct (add_group st1) as [st2|e q| | |] eqn:E2; cbn [pbind] in E; try discriminate.
+  assert (F2 : ms_stack st2 = ms_stack st1 /\ ms_ign st2 = ms_ign st1 /\ ms_unit st2 <> None).
+  { unfold Parser.add_group in E2. destruct (is_cond_t (n_t (ms_group st1))).
+    - destruct (add_child (ms_group st1) (reverse_left (ms_concat st1))) as [g'| | |]; cbn [of_res pbind] in E2; try discriminate.
+      match type of E2 with (if ?cc then _ else _) = _ => destruct cc end; [discriminate|]. inversion E2; cbn; repeat split; discriminate.
+    - destruct (add_child (ms_alt st1) (reverse_left (ms_concat st1))) as [a'| | |]; cbn [of_res pbind] in E2; try discriminate.
+      destruct (add_child (ms_group st1) a') as [g'| | |]; cbn [of_res pbind] in E2; try discriminate. inversion E2; cbn; repeat split; discriminate. }
+  destruct F2 as [S2 [I2 U2]].
+  unfold Parser.pop_group in E. rewrite S2, Es in E.
+  assert (FIN : forall st3, ms_ign st3 = false ->
+            (n_t (ms_group st3) = T_ExprCond -> n_kids (ms_group st3) <> []) ->
+            (pdo st4 <- pop_options st3 ;
+             match ms_unit st4 with
+             | None => POk (st4, Some (p3, false))
+             | Some _ => pdo r <- after_unit st4 p3 ; let '(st', q', wq) := r in POk (st', Some (q', wq))
+             end) = POk (st', nxt) ->
+            einv st' /\ match nxt with Some (q0, _) => ign_ok st' q0 | None => ms_ign st' = false end).
+  { intros st3 I3 K3 E3. unfold pop_options in E3. destruct (ms_os st3) as [|o1 os1]; [discriminate|]. cbn [pbind] in E3.
+    set (st4 := mkMS (ms_stack st3) (ms_group st3) (ms_alt st3) (ms_concat st3) (ms_unit st3) o1 os1 (ms_ign st3) (ms_autocap st3)) in *.
+    assert (E4 : einv st4) by (intros HT HN; cbn in HT, HN; exfalso; exact (K3 HT HN)).
+    destruct (ms_unit st4) as [u4|] eqn:EU4.
+    - destruct (after_unit st4 p3) as [[[st5 q5] wq]|e q0| | |] eqn:EA; cbn [pbind] in E3; try discriminate.
+      inversion E3; subst. destruct (after_unit_grp _ _ _ _ _ EA) as [G1 G2]. cbn [st4 ms_group ms_ign] in G1, G2.
+      split; [eapply einv_keep; [exact E4 | rewrite G1; reflexivity | rewrite G1; auto | exact G2]|]. intros H. congruence.
+    - inversion E3; subst. split; [exact E4|]. intros H. cbn in H. congruence. }
+  destruct ((n_t g =? T_ExprCond) && match n_kids g with [] => true | _ => false end) eqn:EC.
+  - destruct (ms_unit st2) as [u|]; [|congruence].
+    destruct (add_child g u) as [g2| | |] eqn:Eg; cbn [of_res pbind] in E; try discriminate.
+    eapply FIN; [| | exact E]; cbn [ms_ign ms_group]; [congruence|].
+    intros _. unfold Parser.add_child in Eg. destruct (reduce cat_in u); cbn [bind] in Eg; try discriminate. inversion Eg; subst.
+    destruct g; cbn. intros HH. apply app_eq_nil in HH. destruct HH; discriminate.
+  - cbn [pbind] in E. eapply FIN; [| | exact E]; cbn [ms_ign ms_group]; [congruence|].
+    intros HT HN. rewrite HN in EC. assert (HT' : (n_t g =? T_ExprCond) = true) by (rewrite HT; reflexivity). rewrite HT' in EC. discriminate.
+Qed.
+
+Lemma add_alternate_grp st st' : add_alternate st = POk st' ->
+  n_t (ms_group st') = n_t (ms_group st) /\ (n_kids (ms_group st') = [] -> n_kids (ms_group st) = []) /\ ms_ign st' = ms_ign st.
+Proof.
+  unfold Parser.add_alternate. destruct (is_cond_t (n_t (ms_group st))).
+  - destruct (add_child (ms_group st) (reverse_left (ms_concat st))) as [g'| | |] eqn:Eg; cbn [of_res pbind]; try discriminate.
+    intros H. inversion H; subst. cbn. unfold Parser.add_child in Eg. destruct (reduce cat_in (reverse_left (ms_concat st))); cbn [bind] in Eg; try discriminate.
+    inversion Eg; subst. destruct (ms_group st); cbn. repeat split; auto. intros HH. apply app_eq_nil in HH. destruct HH; discriminate.
+  - destruct (add_child (ms_alt st) (reverse_left (ms_concat st))) as [a'| | |]; cbn [of_res pbind]; try discriminate.
+    intros H. inversion H; subst. cbn. auto.
+Qed.
+
+Lemma scan_round_x mco st p wasq st' nxt : ms_unit st = None -> einv st -> ign_ok st p ->
+  scan_round tb mco st p wasq = POk (st', nxt) ->
+  einv st' /\ match nxt with Some (q0, _) => ign_ok st' q0 | None => ms_ign st' = false end.
+Proof.
+  intros Hu He Hi E. unfold Parser.scan_round in E.
+  destruct (scan_blank_full (ms_o st) p) as [p0|e q| | |] eqn:E0; cbn [pbind] in E; try discriminate.
+  destruct (take_run (ms_o st) p0) as [run p1] eqn:Er.
+  destruct (scan_blank_full (ms_o st) p1) as [p2|e q| | |] eqn:E1; cbn [pbind] in E; try discriminate.
+  assert (RUN : forall isq st1, add_run st run isq = POk st1 -> einv st1 /\ ms_ign st1 = ms_ign st).
+  { intros isq st1 Ea. destruct (add_run_fields _ _ _ _ Ea) as [_ [G2 [_ [_ [_ G6]]]]].
+    split; [eapply einv_keep; [exact He | rewrite G6; reflexivity | rewrite G6; auto | exact G2] | exact G2]. }
+  destruct p2 as [|ch p3].
+  { destruct (add_run st run false) as [st1| | | |] eqn:Ea; cbn [pbind] in E; try discriminate. inversion E; subst.
+    destruct (RUN _ _ Ea) as [R1 R2]. split; [exact R1|]. rewrite R2.
+    destruct (ms_ign st) eqn:IG; [|reflexivity]. destruct (ign_round st p p0 run p1 [] Hi IG E0 Er E1) as [t [HH _]]. discriminate. }
+  assert (IG40 : ms_ign st = true -> ch = 40).
+  { intros IG. destruct (ign_round st p p0 run p1 (ch :: p3) Hi IG E0 Er E1) as [t [HH _]]. inversion HH. reflexivity. }
+  destruct (negb (is_special ch)) eqn:Esp.
+  { destruct (add_run st run false) as [st1| | | |] eqn:Ea; cbn [pbind] in E; try discriminate. inversion E; subst.
+    destruct (RUN _ _ Ea) as [R1 R2]. split; [exact R1|]. intros H. rewrite R2 in H. rewrite (IG40 H) in Esp. discriminate. }
+  destruct (add_run st run (is_quantifier ch)) as [st1| | | |] eqn:Ea; cbn [pbind] in E; try discriminate.
+  destruct (RUN _ _ Ea) as [He1 I1].
+  assert (NI : (ch =? 40) = false -> ms_ign st1 = false).
+  { intros C. rewrite I1. destruct (ms_ign st) eqn:IG; [rewrite (IG40 eq_refl) in C; discriminate | reflexivity]. }
+  destruct (ch =? 91) eqn:C1.
+  { destruct (Parser.cs_scan is_word_char cat_name (S (length p3)) false (ms_o st) p3) as [[syn q]|e q| | |]; cbn [pbind] in E; try discriminate.
+    destruct (class_node (ms_o st) syn) as [x| | | |]; cbn [pbind] in E; try discriminate.
+    eapply unit_then_x; [exact He1 | apply NI; lia | exact E]. }
+  destruct (ch =? 40) eqn:C2; [eapply round_open_x; [exact He1 | exact E]|].
+  destruct (ch =? 124) eqn:C3.
+  { destruct (add_alternate st1) as [st2|e q| | |] eqn:E2; cbn [pbind] in E; try discriminate. inversion E; subst.
+    destruct (add_alternate_grp _ _ E2) as [G1 [G2 G3]].
+    split; [eapply einv_keep; eassumption|]. intros H. rewrite G3, (NI eq_refl) in H. discriminate. }
+  destruct (ch =? 41) eqn:C4; [eapply round_close_x; [apply NI; reflexivity | exact E]|].
+  destruct (ch =? 92) eqn:C5.
+  { destruct (Parser.scan_backslash_full is_word_char to_lower simple_fold cat_in cat_name false tb (ms_o st) p3) as [[b q]|e q| | |]; cbn [pbind] in E; try discriminate.
+    destruct b as [x|]; [|discriminate]. eapply unit_then_x; [exact He1 | apply NI; reflexivity | exact E]. }
+  destruct ((ch =? 94) || (ch =? 36) || (ch =? 46)) eqn:C6.
+  { destruct (simple_unit (ms_o st) ch) as [x| | | |]; cbn [pbind] in E; try discriminate.
+    eapply unit_then_x; [exact He1 | apply NI; reflexivity | exact E]. }
+  destruct ((ch =? 123) || (ch =? 42) || (ch =? 43) || (ch =? 63)) eqn:C7; [|discriminate].
+  destruct (ms_unit st1) as [u|] eqn:Eu; [|discriminate].
+  destruct (after_unit st1 (ch :: p3)) as [[[st2 q2] wq]|e q0| | |] eqn:EA; cbn [pbind] in E; try discriminate.
+  inversion E; subst. destruct (after_unit_grp _ _ _ _ _ EA) as [G1 G2].
+  split; [eapply einv_keep; [exact He1 | rewrite G1; reflexivity | rewrite G1; auto | exact G2]|].
+  intros H. rewrite G2, (NI eq_refl) in H. discriminate.
+Qed.
+
+(* ---------------------------------------------------------------- the root *)
+(* the group at the bottom of the group stack is the node scanRegex started with: Capture 0 *)
+Definition gsig (g : rnode) : Z * Z * Z := (n_t g, n_m g, n_n g).
+Definition bottom (st : mst) : Z * Z * Z := last (map (fun f => gsig (fst (fst f))) (ms_stack st)) (gsig (ms_group st)).
+Definition rinv (st : mst) : Prop := bottom st = (T_Capture, 0, -1).
+
+Lemma last_cons {A} (x : A) l d : last (x :: l) d = last l x.
+Proof. revert x d. induction l as [|y l IH]; intros x d; [reflexivity|]. cbn [last]. destruct l; [reflexivity|]. apply IH. Qed.
+
+Lemma rinv_keep st st' : rinv st -> ms_stack st' = ms_stack st -> gsig (ms_group st') = gsig (ms_group st) -> rinv st'.
+Proof. unfold rinv, bottom. intros H S G. rewrite S, G. exact H. Qed.
+
+Lemma add_concatenate_stk st st' : add_concatenate st = POk st' -> ms_stack st' = ms_stack st.
+Proof.
+  unfold Parser.add_concatenate. destruct (ms_unit st) as [u|]; [|discriminate].
+  destruct (add_child (ms_concat st) u); cbn [of_res pbind]; try discriminate. intros H. inversion H; reflexivity.
+Qed.
+Lemma add_concatenate3_stk st lazy mn mx st' : add_concatenate3 st lazy mn mx = POk st' -> ms_stack st' = ms_stack st.
+Proof.
+  unfold Parser.add_concatenate3. destruct (ms_unit st) as [u|]; [|discriminate].
+  destruct (make_quantifier cat_in u lazy mn mx) as [qq| | |]; cbn [of_res pbind]; try discriminate.
+  destruct (add_child (ms_concat st) qq); cbn [of_res pbind]; try discriminate. intros H. inversion H; reflexivity.
+Qed.
+Lemma scan_quantifier_stk st p st' q : scan_quantifier st p = POk (st', q) -> ms_stack st' = ms_stack st.
+Proof.
+  unfold Parser.scan_quantifier. destruct p as [|ch p1]; [discriminate|].
+  destruct (ms_unit st) as [u|]; [|intros H; inversion H; reflexivity].
+  match goal with |- pbind ?a _ = _ -> _ => destruct a as [[[[mn mx] q0]|]|e q0| | |] end; cbn [pbind]; try discriminate.
+  - destruct (scan_blank_full (ms_o st) q0) as [q1|e q1| | |]; cbn [pbind]; try discriminate.
+    destruct (if hd_is q1 63 then (true, tl q1) else (false, q1)) as [lazy q2].
+    destruct (mx <? mn); [discriminate|].
+    destruct (add_concatenate3 st lazy mn mx) as [st1|e q3| | |] eqn:E3; cbn [pbind]; try discriminate.
+    intros H. inversion H; subst. eapply add_concatenate3_stk. exact E3.
+  - destruct (add_concatenate st) as [st1|e q3| | |] eqn:E1; cbn [pbind]; try discriminate.
+    intros H. inversion H; subst. eapply add_concatenate_stk. exact E1.
+Qed.
+Lemma after_unit_stk st p st' q wq : after_unit st p = POk (st', q, wq) -> ms_stack st' = ms_stack st.
+Proof.
+  unfold Parser.after_unit. destruct (scan_blank_full (ms_o st) p) as [p1|e p1| | |]; cbn [pbind]; try discriminate.
+  destruct (is_nil p1 || negb (is_true_quantifier p1)).
+  - destruct (add_concatenate st) as [st1|e q3| | |] eqn:E1; cbn [pbind]; try discriminate.
+    intros H. inversion H; subst. eapply add_concatenate_stk. exact E1.
+  - destruct (scan_quantifier st p1) as [[st1 q1]|e q3| | |] eqn:E1; cbn [pbind]; try discriminate.
+    intros H. inversion H; subst. eapply scan_quantifier_stk. exact E1.
+Qed.
+
+Lemma unit_then_r st1 x q st' nxt : rinv st1 ->
+  (pdo r <- after_unit (set_unit st1 (Some x)) q ; let '(st', q', wq) := r in POk (st', Some (q', wq))) = POk (st', nxt) -> rinv st'.
+Proof.
+  intros Hr E.
+  destruct (after_unit (set_unit st1 (Some x)) q) as [[[st2 q2] wq]|e q0| | |] eqn:EA; cbn [pbind] in E; try discriminate.
+  inversion E; subst. destruct (after_unit_grp _ _ _ _ _ EA) as [G1 _]. pose proof (after_unit_stk _ _ _ _ _ EA) as G2.
+  cbn [set_unit ms_group ms_stack] in G1, G2. eapply rinv_keep; [exact Hr | exact G2 | rewrite G1; reflexivity].
+Qed.
+
+Lemma gsig_set_kids g k : gsig (set_kids g k) = gsig g.
+Proof. destruct g; reflexivity. Qed.
+
+Lemma scan_round_r mco st p wasq st' nxt : rinv st -> scan_round tb mco st p wasq = POk (st', nxt) -> rinv st'.
+Proof.
+  intros Hr E. unfold Parser.scan_round in E.
+  destruct (scan_blank_full (ms_o st) p) as [p0|e q| | |]; cbn [pbind] in E; try discriminate.
+  destruct (take_run (ms_o st) p0) as [run p1].
+  destruct (scan_blank_full (ms_o st) p1) as [p2|e q| | |]; cbn [pbind] in E; try discriminate.
+  assert (RUN : forall isq st1, add_run st run isq = POk st1 -> rinv st1).
+  { intros isq st1 Ea. destruct (add_run_fields _ _ _ _ Ea) as [_ [_ [_ [_ [G5 G6]]]]]. eapply rinv_keep; [exact Hr | exact G5 | rewrite G6; reflexivity]. }
+  destruct p2 as [|ch p3].
+  { destruct (add_run st run false) as [st1| | | |] eqn:Ea; cbn [pbind] in E; try discriminate. inversion E; subst. eapply RUN; exact Ea. }
+  destruct (negb (is_special ch)).
+  { destruct (add_run st run false) as [st1| | | |] eqn:Ea; cbn [pbind] in E; try discriminate. inversion E; subst. eapply RUN; exact Ea. }
+  destruct (add_run st run (is_quantifier ch)) as [st1| | | |] eqn:Ea; cbn [pbind] in E; try discriminate.
+  pose proof (RUN _ _ Ea) as R1.
+  destruct (ch =? 91).
+  { destruct (Parser.cs_scan is_word_char cat_name (S (length p3)) false (ms_o st) p3) as [[syn q]|e q| | |]; cbn [pbind] in E; try discriminate.
+    destruct (class_node (ms_o st) syn) as [x| | | |]; cbn [pbind] in E; try discriminate. eapply unit_then_r; eassumption. }
+  destruct (ch =? 40).
+  { unfold Parser.round_open in E.
+    destruct (useRE2 (ms_o st1) && negb (ms_ign st1) && hd_is p3 63 && nth_is 1 p3 80 && nth_is 2 p3 61).
+    { destruct (python_backref is_word_char tb (ms_o st1) (skipn 3 p3)) as [[x q]|e q| | |]; cbn [pbind] in E; try discriminate.
+      eapply unit_then_r; eassumption. }
+    destruct (Parser.group_open is_word_char tb mco (n_t (ms_group st1)) (mkGV (ms_o st1) (ms_ign st1) (ms_autocap st1)) p3) as [[[g v] q]|e q| | |];
+      cbn [pbind] in E; try discriminate.
+    destruct g as [gn|]; inversion E; subst; unfold rinv, bottom in *; cbn [start_group push_group ms_stack ms_group map fst] in *.
+    - rewrite last_cons. exact R1.
+    - exact R1. }
+  destruct (ch =? 124).
+  { destruct (add_alternate st1) as [st2|e q| | |] eqn:E2; cbn [pbind] in E; try discriminate. inversion E; subst.
+    unfold Parser.add_alternate in E2. destruct (is_cond_t (n_t (ms_group st1))).
+    - destruct (add_child (ms_group st1) (reverse_left (ms_concat st1))) as [g'| | |] eqn:Eg; cbn [of_res pbind] in E2; try discriminate.
+      inversion E2; subst. unfold Parser.add_child in Eg. destruct (reduce cat_in (reverse_left (ms_concat st1))); cbn [bind] in Eg; try discriminate.
+      inversion Eg; subst. eapply rinv_keep; [exact R1 | reflexivity | cbn [ms_group]; apply gsig_set_kids].
+    - destruct (add_child (ms_alt st1) (reverse_left (ms_concat st1))) as [a'| | |]; cbn [of_res pbind] in E2; try discriminate.
+      inversion E2; subst. eapply rinv_keep; [exact R1 | reflexivity | reflexivity]. }
+  destruct (ch =? 41).
+  { unfold Parser.round_close in E. destruct (ms_stack st1) as [|[[g a] c] stk] eqn:Es; [discriminate|].
+    destruct (add_group st1) as [st2|e q| | |] eqn:E2; cbn [pbind] in E; try discriminate.
+    assert (S2 : ms_stack st2 = ms_stack st1).
+    { unfold Parser.add_group in E2. destruct (is_cond_t (n_t (ms_group st1))).
+      - destruct (add_child (ms_group st1) (reverse_left (ms_concat st1))) as [g'| | |]; cbn [of_res pbind] in E2; try discriminate.
+        match type of E2 with (if ?cc then _ else _) = _ => destruct cc end; [discriminate|]. inversion E2; reflexivity.
+      - destruct (add_child (ms_alt st1) (reverse_left (ms_concat st1))) as [a'| | |]; cbn [of_res pbind] in E2; try discriminate.
+        destruct (add_child (ms_group st1) a') as [g'| | |]; cbn [of_res pbind] in E2; try discriminate. inversion E2; reflexivity. }
+    unfold Parser.pop_group in E. rewrite S2, Es in E.
+    assert (RB : last (map (fun f => gsig (fst (fst f))) stk) (gsig g) = (T_Capture, 0, -1)).
+    { unfold rinv, bottom in R1. rewrite Es in R1. cbn [map fst] in R1. rewrite last_cons in R1. exact R1. }
+    assert (FIN : forall st3, ms_stack st3 = stk -> gsig (ms_group st3) = gsig g ->
+              (pdo st4 <- pop_options st3 ;
+               match ms_unit st4 with
+               | None => POk (st4, Some (p3, false))
+               | Some _ => pdo r <- after_unit st4 p3 ; let '(st', q', wq) := r in POk (st', Some (q', wq))
+               end) = POk (st', nxt) -> rinv st').
+    { intros st3 F1 F2 E3. unfold pop_options in E3. destruct (ms_os st3) as [|o1 os1]; [discriminate|]. cbn [pbind] in E3.
+      set (st4 := mkMS (ms_stack st3) (ms_group st3) (ms_alt st3) (ms_concat st3) (ms_unit st3) o1 os1 (ms_ign st3) (ms_autocap st3)) in *.
+      assert (R4 : rinv st4) by (unfold rinv, bottom; cbn [st4 ms_stack ms_group]; rewrite F1, F2; exact RB).
+      destruct (ms_unit st4) as [u4|].
+      - destruct (after_unit st4 p3) as [[[st5 q5] wq]|e q0| | |] eqn:EA; cbn [pbind] in E3; try discriminate.
+        inversion E3; subst. destruct (after_unit_grp _ _ _ _ _ EA) as [G1 _]. pose proof (after_unit_stk _ _ _ _ _ EA) as G2.
+        eapply rinv_keep; [exact R4 | exact G2 | rewrite G1; reflexivity].
+      - inversion E3; subst. exact R4. }
+    destruct ((n_t g =? T_ExprCond) && match n_kids g with [] => true | _ => false end).
+    - destruct (ms_unit st2) as [u|]; [|discriminate].
+      destruct (add_child g u) as [g2| | |] eqn:Eg; cbn [of_res pbind] in E; try discriminate.
+      eapply FIN; [| | exact E]; cbn [ms_stack ms_group]; [reflexivity|].
+      unfold Parser.add_child in Eg. destruct (reduce cat_in u); cbn [bind] in Eg; try discriminate. inversion Eg; subst. apply gsig_set_kids.
+    - cbn [pbind] in E. eapply FIN; [| | exact E]; reflexivity. }
+  destruct (ch =? 92).
+  { destruct (Parser.scan_backslash_full is_word_char to_lower simple_fold cat_in cat_name false tb (ms_o st) p3) as [[b q]|e q| | |]; cbn [pbind] in E; try discriminate.
+    destruct b as [x|]; [|discriminate]. eapply unit_then_r; eassumption. }
+  destruct ((ch =? 94) || (ch =? 36) || (ch =? 46)).
+  { destruct (simple_unit (ms_o st) ch) as [x| | | |]; cbn [pbind] in E; try discriminate. eapply unit_then_r; eassumption. }
+  destruct ((ch =? 123) || (ch =? 42) || (ch =? 43) || (ch =? 63)); [|discriminate].
+  destruct (ms_unit st1) as [u|]; [|discriminate].
+  destruct (after_unit st1 (ch :: p3)) as [[[st2 q2] wq]|e q0| | |] eqn:EA; cbn [pbind] in E; try discriminate.
+  inversion E; subst. destruct (after_unit_grp _ _ _ _ _ EA) as [G1 _]. pose proof (after_unit_stk _ _ _ _ _ EA) as G2.
+  eapply rinv_keep; [exact R1 | exact G2 | rewrite G1; reflexivity].
+Qed.
+
+(* the unit addGroup makes has the type and numbers of the group *)
+Lemma add_group_unit_sig st st' u : add_group st = POk st' -> ms_unit st' = Some u ->
+  gsig u = gsig (ms_group st) /\ n_o u = n_o (ms_group st).
+Proof.
+  unfold Parser.add_group. intros E Eu. destruct (is_cond_t (n_t (ms_group st))).
+  - destruct (add_child (ms_group st) (reverse_left (ms_concat st))) as [g'| | |] eqn:Eg; cbn [of_res pbind] in E; try discriminate.
+    match type of E with (if ?cc then _ else _) = _ => destruct cc end; [discriminate|]. inversion E; subst. cbn in Eu. inversion Eu; subst.
+    unfold Parser.add_child in Eg. destruct (reduce cat_in (reverse_left (ms_concat st))); cbn [bind] in Eg; try discriminate. inversion Eg; subst.
+    destruct (ms_group st); split; reflexivity.
+  - destruct (add_child (ms_alt st) (reverse_left (ms_concat st))) as [a'| | |]; cbn [of_res pbind] in E; try discriminate.
+    destruct (add_child (ms_group st) a') as [g'| | |] eqn:Eg; cbn [of_res pbind] in E; try discriminate. inversion E; subst. cbn in Eu. inversion Eu; subst.
+    unfold Parser.add_child in Eg. destruct (reduce cat_in a'); cbn [bind] in Eg; try discriminate. inversion Eg; subst.
+    destruct (ms_group st); split; reflexivity.
+Qed.
+
+(* the end of scanRegex: the root group is closed and becomes the tree *)
+Lemma scan_end_o st st' u : mbody st -> oinv st -> einv st -> ms_ign st = false ->
+  add_group st = POk st' -> ms_unit st' = Some u -> wf u.
+Proof.
+  intros B Ho He Hi E Eu.
+  assert (HK : n_t (ms_group st) = T_ExprCond -> n_kids (ms_group st) <> []).
+  { intros HT HN. specialize (He HT HN). congruence. }
+  destruct (add_group_o st st' B Ho HK E) as [_ [_ [_ [g' [U' [T' [P' _]]]]]]].
+  rewrite Eu in U'. inversion U'; subst g'. apply pre_wf; [|exact P']. rewrite T'.
+  destruct Ho as [[[_ [_ K]] _] _ _]. destruct (kcls (n_t (ms_group st))); try contradiction; discriminate.
+Qed.
+
+Lemma oinv_init o : caps 0 = true ->
   oinv (mkMS [] (mk_node_mn T_Capture o 0 (-1)) (mk_node T_Alternate o) (mk_node T_Concatenate o) None o [] false 1).
 Proof.
   intros Z0. constructor; cbn; [|exact I | exact I].
@@ -780,3 +1200,100 @@ Proof.
 Qed.
 
 End OkMain.
+
+(* ---------------------------------------------------------------- the shape alone, for every option word *)
+(* with the trivial membership predicate nothing is asked of the capture table: every tree syntax.Parse builds --
+   ECMAScript and RE2 included, any oracle -- has the arities, counts and one-directional loop bodies of [wfb] *)
+Section Shape.
+Variable is_word_char : Z -> bool.
+Variable to_lower : Z -> Z.
+Variable simple_fold : Z -> Z.
+Variable participates : Z -> bool.
+Variable cat_in : Z -> Z -> bool.
+Variable cat_name : list Z -> Z.
+
+Local Notation scan_loop_full := (scan_loop_full is_word_char to_lower simple_fold participates cat_in cat_name).
+Local Notation any := (fun _ : Z => true).
+
+Lemma shape_loop tb mco fuel : forall st p wasq stF, minv st -> oinv any st -> ms_unit st = None -> einv st -> ign_ok st p ->
+  scan_loop_full fuel tb mco st p wasq = POk stF -> minv stF /\ oinv any stF /\ einv stF /\ ms_ign stF = false.
+Proof.
+  induction fuel as [|f IH]; intros st p wasq stF Iv Ho Hu He Hi E; [discriminate|].
+  cbn [Parser.scan_loop_full] in E. destruct p as [|c p'].
+  { inversion E; subst. split; [exact Iv|]. split; [exact Ho|]. split; [exact He|].
+    destruct (ms_ign stF) eqn:IG; [|reflexivity]. destruct (Hi IG) as [H _]. discriminate. }
+  destruct (scan_round is_word_char to_lower simple_fold participates cat_in cat_name tb mco st (c :: p') wasq) as [[st' nxt]|e q| | |] eqn:ER;
+    cbn [pbind] in E; try discriminate.
+  pose proof (scan_round_ok is_word_char to_lower simple_fold participates cat_in cat_name tb mco st (c :: p') wasq Iv Hu ltac:(discriminate)) as RR.
+  rewrite ER in RR.
+  pose proof (scan_round_o any tb (fun _ _ => eq_refl) (fun _ _ _ => eq_refl) is_word_char to_lower simple_fold participates cat_in cat_name
+                mco st (c :: p') wasq st' nxt Iv Ho Hu He Hi (fun _ _ _ _ _ _ _ _ _ => eq_refl) ER) as Ho'.
+  destruct (scan_round_x any tb (fun _ _ => eq_refl) (fun _ _ _ => eq_refl) is_word_char to_lower simple_fold participates cat_in cat_name mco st (c :: p') wasq st' nxt Hu He Hi ER) as [He' Hn].
+  destruct nxt as [[q wq]|].
+  - cbn [round_res] in RR. destruct RR as [R1 [R2 _]]. eapply IH; [exact R1 | exact Ho' | exact R2 | exact He' | exact Hn | exact E].
+  - inversion E; subst. cbn [round_res] in RR. auto.
+Qed.
+
+Theorem parse_tree_shape o mco_flag p t caps captop :
+  parse is_word_char to_lower simple_fold participates cat_in cat_name o mco_flag p = Ok (PR_Tree t caps captop) ->
+  wf any t.
+Proof.
+  intros E. unfold Parser.parse in E.
+  destruct (negb pl_bounds_ok); [discriminate|].
+  destruct (negb (forallb (fun c => 0 <=? c) p)); [discriminate|].
+  set (mco := mco_flag || useE o || useRE2 o) in *.
+  destruct (count_captures is_word_char to_lower simple_fold cat_in cat_name mco o p) as [tb|e q| | |]; cbn [pbind] in E; try discriminate.
+  destruct (scan_regex is_word_char to_lower simple_fold participates cat_in cat_name (captab_main tb) mco o p) as [t0|e q| | |] eqn:ES;
+    cbn [pbind] in E; try discriminate.
+  inversion E; subst t0. clear E.
+  unfold Parser.scan_regex in ES.
+  set (st0 := mkMS [] (mk_node_mn T_Capture o 0 (-1)) (mk_node T_Alternate o) (mk_node T_Concatenate o) None o [] false 1) in *.
+  destruct (scan_loop_full (S (length p)) (captab_main tb) mco st0 p false) as [st| | | |] eqn:ELP; cbn [pbind] in ES; try discriminate.
+  assert (I0 : minv st0).
+  { split; [|reflexivity]. constructor; cbn; auto; (split; [constructor | reflexivity]). }
+  assert (E0 : einv st0) by (intros H; discriminate).
+  assert (G0 : ign_ok st0 p) by (intros H; discriminate).
+  destruct (shape_loop (captab_main tb) mco (S (length p)) st0 p false st I0 (oinv_init any o eq_refl) eq_refl E0 G0 ELP) as [IvF [OF [EF GF]]].
+  destruct (ms_stack st); [|discriminate].
+  destruct (add_group cat_in st) as [st'| | | |] eqn:EG; cbn [pbind] in ES; try discriminate.
+  destruct (ms_unit st') as [u|] eqn:EU; [|discriminate]. inversion ES; subst u.
+  exact (scan_end_o any (captab_main tb) (fun _ _ => eq_refl) (fun _ _ _ => eq_refl) is_word_char to_lower simple_fold participates cat_in cat_name
+           st st' t (proj1 IvF) OF EF GF EG EU).
+Qed.
+
+Lemma root_loop tb mco fuel : forall st p wasq stF, rinv st ->
+  scan_loop_full fuel tb mco st p wasq = POk stF -> rinv stF.
+Proof.
+  induction fuel as [|f IH]; intros st p wasq stF Hr E; [discriminate|].
+  cbn [Parser.scan_loop_full] in E. destruct p as [|c p']; [inversion E; subst; exact Hr|].
+  destruct (scan_round is_word_char to_lower simple_fold participates cat_in cat_name tb mco st (c :: p') wasq) as [[st' nxt]|e q| | |] eqn:ER;
+    cbn [pbind] in E; try discriminate.
+  pose proof (scan_round_r tb is_word_char to_lower simple_fold participates cat_in cat_name mco st (c :: p') wasq st' nxt Hr ER) as Hr'.
+  destruct nxt as [[q wq]|]; [eapply IH; eassumption | inversion E; subst; exact Hr'].
+Qed.
+
+(* the root of every tree is the node scanRegex starts with: Capture 0, not balancing *)
+Theorem parse_tree_root o mco_flag p t caps captop :
+  parse is_word_char to_lower simple_fold participates cat_in cat_name o mco_flag p = Ok (PR_Tree t caps captop) ->
+  n_t t = T_Capture /\ n_m t = 0 /\ n_n t = -1.
+Proof.
+  intros E. unfold Parser.parse in E.
+  destruct (negb pl_bounds_ok); [discriminate|].
+  destruct (negb (forallb (fun c => 0 <=? c) p)); [discriminate|].
+  set (mco := mco_flag || useE o || useRE2 o) in *.
+  destruct (count_captures is_word_char to_lower simple_fold cat_in cat_name mco o p) as [tb|e q| | |]; cbn [pbind] in E; try discriminate.
+  destruct (scan_regex is_word_char to_lower simple_fold participates cat_in cat_name (captab_main tb) mco o p) as [t0|e q| | |] eqn:ES;
+    cbn [pbind] in E; try discriminate.
+  inversion E; subst t0. clear E.
+  unfold Parser.scan_regex in ES.
+  set (st0 := mkMS [] (mk_node_mn T_Capture o 0 (-1)) (mk_node T_Alternate o) (mk_node T_Concatenate o) None o [] false 1) in *.
+  destruct (scan_loop_full (S (length p)) (captab_main tb) mco st0 p false) as [st| | | |] eqn:ELP; cbn [pbind] in ES; try discriminate.
+  pose proof (root_loop (captab_main tb) mco (S (length p)) st0 p false st eq_refl ELP) as RF.
+  destruct (ms_stack st) eqn:Es; [|discriminate].
+  destruct (add_group cat_in st) as [st'| | | |] eqn:EG; cbn [pbind] in ES; try discriminate.
+  destruct (ms_unit st') as [u|] eqn:EU; [|discriminate]. inversion ES; subst u.
+  destruct (add_group_unit_sig cat_in st st' t EG EU) as [SG _].
+  unfold rinv, bottom in RF. rewrite Es in RF. cbn [map last] in RF. rewrite <- SG in RF. unfold gsig in RF. inversion RF. auto.
+Qed.
+
+End Shape.
